@@ -208,6 +208,12 @@ func init() {
 		}
 		return strings.Join(o, " ")
 	}, gen: func(c *ctx) {
+		// boundaries at the very origin: a cue that begins and / or ends at instant 0 is rendered like any other
+		for _, f := range []string{"srt", "vtt", "ssa", "ttml"} {
+			for _, ts := range []string{"0 0", "0 1", "0 0 0 20000000", "0 999999 1000000 1000000", "0 0 0 0", "5000000000 5000000000"} {
+				c.do("ts.doc " + f + " " + ts)
+			}
+		}
 		r := newRng(c.seed, "ts.doc")
 		n := 400
 		if c.thorough {
@@ -221,6 +227,9 @@ func init() {
 			}
 			var ts []string
 			t := r.rangeI(0, 3600*1000) * 1000000
+			if r.chance(1, 4) {
+				t = 0
+			}
 			for k := 1 + r.intn(4); k > 0; k-- {
 				// a cue that ends just below a unit boundary, the next one starting just above it (or on it, or equal)
 				e := (t/unit+1+r.rangeI(0, 300))*unit - r.rangeI(0, 2)*r.rangeI(1, unit-1)
@@ -230,6 +239,9 @@ func init() {
 				if r.chance(1, 5) { // both boundaries of the cue inside one unit
 					t = t/unit*unit + r.rangeI(0, unit/2)
 					e = t + r.rangeI(1, unit/2-1)
+				}
+				if r.chance(1, 6) { // a cue of no length
+					e = t
 				}
 				ts = append(ts, strconv.FormatInt(t, 10), strconv.FormatInt(e, 10))
 				switch r.intn(4) {
